@@ -1,11 +1,217 @@
 import Oracle.Util
-namespace Oracle.C07
-open Oracle
+import Wz.Model.Ctl
+import Std.Data.HashMap
+/-
+Oracle topic c07 (stateless).
 
-/-- Topic state (stub: no model behind this topic yet). -/
+Program text: space-separated tokens
+  op | check | block S end | loop S end | if S else S end | br N | brif N | brtable K N1..NK D
+  | call F | calli | rcall F | rcalli | ret | host K F1..FK
+functions separated by `;`.
+
+  c07 lower <tc> <S>                       -> skeleton of `lowerS tc S`  (K = check, B = backward branch,
+                                              T<k> = br_table with k backward entries, c<f>, ci, t<f>, ti, h)
+  c07 wf <req> <tc> <S>                    -> wfS req (lowerS tc S)
+  c07 cfcycle <tc> <D> <entry> <table> <S ; S ; ...>
+                                           -> `cycle` iff the lowered program has a reachable cycle of
+                                              check-free steps (exhaustive over all choices), else `none`
+  c07 exit <cause> <code> <watcher>        -> exit code of the ExitError + closed flag after the cause fired
+-/
+namespace Oracle.C07
+open Oracle Wz.Model.Ctl
+
 abbrev St := Unit
 def init : St := ()
 
-def step (st : St) (_args : List String) : St × String := (st, "bad-op")
+partial def parseSeq (ts : List String) : Option (Seq × List String) :=
+  match ts with
+  | [] => some (.nil, [])
+  | "end" :: _ => some (.nil, ts)
+  | "else" :: _ => some (.nil, ts)
+  | t :: rest =>
+    let one (i : Instr) (rest : List String) : Option (Seq × List String) :=
+      (parseSeq rest).map (fun (s, r) => (.cons i s, r))
+    match t with
+    | "op" => one .op rest
+    | "check" => one .check rest
+    | "calli" => one .callIndirect rest
+    | "rcalli" => one (.returnCallIndirect false) rest
+    | "ret" => one .ret rest
+    | "block" =>
+      match parseSeq rest with
+      | some (b, "end" :: r) => one (.block b) r
+      | _ => none
+    | "loop" =>
+      match parseSeq rest with
+      | some (b, "end" :: r) => one (.loop b) r
+      | _ => none
+    | "if" =>
+      match parseSeq rest with
+      | some (t, "else" :: r) =>
+        match parseSeq r with
+        | some (e, "end" :: r2) => one (.ite t e) r2
+        | _ => none
+      | _ => none
+    | "br" => match rest with
+      | n :: r => (parseNat n).bind (fun n => one (.br n) r)
+      | _ => none
+    | "brif" => match rest with
+      | n :: r => (parseNat n).bind (fun n => one (.brIf n) r)
+      | _ => none
+    | "call" => match rest with
+      | n :: r => (parseNat n).bind (fun n => one (.call n) r)
+      | _ => none
+    | "rcall" => match rest with
+      | n :: r => (parseNat n).bind (fun n => one (.returnCall false n) r)
+      | _ => none
+    | "brtable" => match rest with
+      | k :: r =>
+        match parseNat k with
+        | some k =>
+          match parseNats (r.take (k + 1)) with
+          | some ns => if ns.length = k + 1 then one (.brTable (ns.take k) (ns.getD k 0)) (r.drop (k + 1)) else none
+          | none => none
+        | none => none
+      | _ => none
+    | "host" => match rest with
+      | k :: r =>
+        match parseNat k with
+        | some k =>
+          match parseNats (r.take k) with
+          | some ns => if ns.length = k then one (.host ns) (r.drop k) else none
+          | none => none
+        | none => none
+      | _ => none
+    | _ => none
+
+def parseBody (ts : List String) : Option Seq :=
+  match parseSeq ts with
+  | some (s, []) => some s
+  | _ => none
+
+def splitOn (ts : List String) (sep : String) : List (List String) :=
+  let (cur, acc) := ts.foldl (fun (cur, acc) t => if t == sep then ([], acc ++ [cur]) else (cur ++ [t], acc)) ([], [])
+  acc ++ [cur]
+
+def parseList (s : String) : Option (List Nat) :=
+  if s == "-" || s == "[]" then some [] else
+  let inner := (s.drop 1).toString
+  let inner := (inner.take (inner.length - 1)).toString
+  parseNats (inner.splitOn ",")
+
+/-- skeleton of lowered code in emission order; `ls` = kinds of the enclosing labels (true = loop) -/
+partial def skelS (ls : List Bool) : Seq → List String
+  | .nil => []
+  | .cons i s =>
+    let back (n : Nat) : Bool := ls.getD n false
+    let here : List String :=
+      match i with
+      | .op => []
+      | .check => ["K"]
+      | .block b => skelS (false :: ls) b
+      | .loop b => skelS (true :: ls) b
+      | .ite t e => skelS (false :: ls) t ++ skelS (false :: ls) e
+      | .br n => if back n then ["B"] else []
+      | .brIf n => if back n then ["B"] else []
+      | .brTable ns d => [s!"T{((ns ++ [d]).filter back).length}"]
+      | .call f => [s!"c{f}"]
+      | .callIndirect => ["ci"]
+      | .returnCall chk f => (if chk then ["K"] else []) ++ [s!"t{f}"]
+      | .returnCallIndirect chk => (if chk then ["K"] else []) ++ ["ti"]
+      | .ret => []
+      | .host _ => ["h"]
+    here ++ skelS ls s
+
+partial def showS : Seq → String
+  | .nil => ""
+  | .cons i s =>
+    let h := match i with
+      | .op => "o" | .check => "K" | .block b => "(" ++ showS b ++ ")" | .loop b => "[" ++ showS b ++ "]"
+      | .ite t e => "{" ++ showS t ++ "|" ++ showS e ++ "}" | .br n => s!"b{n}" | .brIf n => s!"f{n}"
+      | .brTable ns d => s!"T{ns}{d}" | .call f => s!"c{f}" | .callIndirect => "ci"
+      | .returnCall c f => s!"t{c}{f}" | .returnCallIndirect c => s!"ti{c}" | .ret => "r" | .host c => s!"h{c}"
+    h ++ " " ++ showS s
+
+def showL : Lbl → String
+  | .blk a => "b:" ++ showS a
+  | .lp b a => "l:" ++ showS b ++ "/" ++ showS a
+
+def showSt (st : Stack) : String :=
+  String.intercalate "#" (st.map (fun fr => showS fr.cur ++ "@" ++ String.intercalate ";" (fr.lbls.map showL)))
+
+/-- exhaustive exploration; returns (number of states, some alive-count) or none when the limit is hit -/
+partial def explore (p : Prog) (D : Nat) (entry : Nat) (limit : Nat) : Option (Nat × Nat) := Id.run do
+  let s0 := initStack p entry
+  let mut states : Array Stack := #[s0]
+  let mut idx : Std.HashMap String Nat := (∅ : Std.HashMap String Nat).insert (showSt s0) 0
+  let mut edges : Array (List Nat) := #[]      -- check-free successors
+  let mut i := 0
+  while i < states.size do
+    if states.size > limit then return none
+    let s := states[i]!
+    let mut succ : List Nat := []
+    for c in [0:numChoices p s] do
+      match step p D s c with
+      | none => pure ()
+      | some (s', e) =>
+        let key := showSt s'
+        let j ← match idx[key]? with
+          | some j => pure j
+          | none =>
+            let j := states.size
+            states := states.push s'
+            idx := idx.insert key j
+            pure j
+        if !e then succ := j :: succ
+    edges := edges.push succ
+    i := i + 1
+  -- prune states without a check-free successor that is still alive
+  let n := states.size
+  let mut alive : Array Bool := Array.replicate n true
+  let mut changed := true
+  while changed do
+    changed := false
+    for k in [0:n] do
+      if alive[k]! then
+        if !(edges[k]!.any (fun j => alive[j]!)) then
+          alive := alive.set! k false
+          changed := true
+  return some (n, (alive.toList.filter id).length)
+
+def step (st : St) (args : List String) : St × String :=
+  match args with
+  | "lower" :: tc :: body =>
+    match parseBool tc, parseBody body with
+    | some tc, some s => (st, String.intercalate " " ("S" :: skelS [] (lowerS tc s)))
+    | _, _ => (st, "bad-op")
+  | "wf" :: req :: tc :: body =>
+    match parseBool req, parseBool tc, parseBody body with
+    | some req, some tc, some s => (st, b2s (wfS req (lowerS tc s)))
+    | _, _, _ => (st, "bad-op")
+  | "cfcycle" :: tc :: d :: entry :: table :: prog =>
+    match parseBool tc, parseNat d, parseNat entry, parseList table, (splitOn prog ";").mapM parseBody with
+    | some tc, some d, some entry, some table, some funcs =>
+      let p := lowerCtl tc { funcs := funcs, table := table }
+      match explore p d entry 20000 with
+      | none => (st, "limit")
+      | some (n, alive) => (st, (if alive > 0 then "cycle" else "none") ++ s!" states={n} alive={alive} wf={b2s (wfProg tc p)}")
+    | _, _, _, _, _ => (st, "bad-op")
+  | ["exit", cause, code, watcher] =>
+    match parseNat code, parseBool watcher with
+    | some code, some w =>
+      let cs : Option Cause := match cause with
+        | "canceled" => some .canceled
+        | "deadline" => some .deadline
+        | "close" => some (.closeWith (BitVec.ofNat 32 code))
+        | _ => none
+      match cs with
+      | none => (st, "bad-op")
+      | some cs =>
+        let word := fire 0#64 cs w
+        match failIfClosed word with
+        | some c => (st, s!"exit {c.toNat} closed={b2s (isClosed word)}")
+        | none => (st, s!"noexit closed={b2s (isClosed word)}")
+    | _, _ => (st, "bad-op")
+  | _ => (st, "bad-op")
 
 end Oracle.C07
